@@ -64,8 +64,8 @@ def run(ctx, report):
             r_reg.finding(f"extra:{cc}", f"a national algorithm is registered for {cc}, which the property lists as unaffected by national validation", seen[f"{cc}:default"].where)
 
     # ------------------------------------------------------------------ R06-dispatch
-    r_disp = report.rule("R06-dispatch", floor=2, what="writer key format = reader key format; unknown key -> True / ''")
-    _dispatch(ctx, r_disp)
+    r_disp = report.rule("R06-dispatch", floor=15, what="every registered key is '<country>:<name>'; compute_national_checksum reaches the registered algorithm of each country (by evaluation)")
+    _dispatch(ctx, r_disp, national)
 
     # ------------------------------------------------------------------ per country: fields, fit, table, BBAN-level check
     r_fields = report.rule("R06-fields", floor=20, what="each field an algorithm reads is published for the country (or provably neutral)")
@@ -182,25 +182,46 @@ def _fmt(p, acc):
     return {c: p.get(c, "") for c in acc + ["national_checksum_digits"] if c in p}
 
 
-def _dispatch(ctx, rule):
+def _dispatch(ctx, rule, national):
+    """Writer and reader of the algorithm table agree: every registered key has the form '<country>:<name>', and for every country
+    with a registered default algorithm the generation-side reader (compute_national_checksum) is evaluated on a concrete field
+    assignment and must hand the fields to that algorithm's compute.  (The validation-side reader is covered per country by
+    R06-true: 'never consults the algorithm'.)  Decided by evaluation, not by the spelling of the key expression."""
+    import re
     prog = ctx.program
     facts = ctx.facts
-    it = facts.interp()
-    # writer: key format produced by register()
+    reg = ctx.registry
     keys = [r.key for r in facts.registrations()]
-    rule.instance({"writer keys": keys[:4]})
-    for fq in ("schwifty.bban.BBAN.validate_national_checksum", "schwifty.bban.compute_national_checksum"):
-        f = prog.get(fq)
-        fmts = []
-        for n in ast.walk(f.node):
-            if isinstance(n, ast.JoinedStr):
-                parts = []
-                for v in n.values:
-                    parts.append(v.value if isinstance(v, ast.Constant) else "{}")
-                fmts.append("".join(parts))
-        rule.instance({"reader": f.short, "key format": fmts})
-        if "{}:{}" not in fmts and "{}:default" not in fmts:
-            rule.finding(f"{f.short}.key", f"{f.short} builds its lookup key as {fmts}, the registry is keyed '<country>:<name>'", f.where)
+    rule.instance({"writer keys": keys[:4], "count": len(keys)})
+    for r in facts.registrations():
+        if not isinstance(r.key, str) or not re.fullmatch(r"[A-Z]{2}:[0-9A-Za-z_]+", r.key):
+            rule.finding(f"register:{r.key}", f"algorithm registered under {r.key!r}; the table is keyed '<country>:<name>'", r.where)
+    fn = prog.get("schwifty.bban.compute_national_checksum")
+    for r in sorted(national, key=lambda x: x.key):
+        cc = r.prefix
+        if r.name != "default" or cc not in reg.countries or cc not in NAT.COMPUTE:
+            continue
+        it = facts.interp()
+        it.no_split = 1
+        obj = it.instantiate(r.cls, [], {}, None)
+        acc = accepts_of(it, obj)
+        fields = country_fields(reg, cc)
+        p = next(iter(probes(fields, acc, ctx.seed, n_random=0)))
+        comps = {c: p.get(c, "") for c in set(fields) | set(acc)}
+        try:
+            outs = it.explore(lambda: it.call_func(fn, [cc, dict(comps)], {}, None), max_paths=64)
+        except (CannotEvaluate, PathLimit) as e:
+            raise AnalysisError(f"cannot evaluate compute_national_checksum({cc!r}, ...): {e}")
+        consulted = False
+        for o in outs:
+            for e in o.events:
+                f = getattr(e.get("callee"), "func", None) if e["kind"] == "call" else None
+                if f is not None and f.name == "compute" and f.cls is not None and f.cls in r.cls.mro(prog):
+                    consulted = True
+        rule.instance({"reader": fn.short, "country": cc, "reaches": f"{r.cls.short}.compute" if consulted else None})
+        if not consulted:
+            rule.finding(f"{fn.short}.key:{cc}", f"{fn.short}({cc!r}, ...) never reaches {r.cls.qualname}.compute, which is registered for {cc} "
+                         f"(registered as {r.key!r}): generated {cc} BBANs carry no computed national check digits", fn.where)
 
 
 def _bban_level(ctx, rule, cc, st, bban_cls, r):
